@@ -273,12 +273,13 @@ PROPS = {
                       "1899-2101 (interval arithmetic over the NOAA series), hence — end to end, for "
                       "every longitude in [-180, 180], every date of 1900-2100 and every zone function "
                       "within six hours of the place's mean solar time — noon is on the requested date, "
-                      "and midnight is within 12 h 37 min 26 s of 00:00 of the requested date in the "
-                      "zone. The 0.25° agreement with an independent ephemeris is not a theorem.",
-        "level_note": "The 37 min in the midnight bound are twice the proved equation-of-time bound; "
-                      "the real spacing error of consecutive solar midnights (about 30 s) is not proved.",
+                      "and midnight is within 12 h 0 min 33 s of 00:00 of the requested date in the "
+                      "zone (one day's change of the equation of time is at most 0.53 min, so consecutive "
+                      "solar midnights are 24 h apart to within 33 s). The 0.25° agreement with an "
+                      "independent ephemeris is not a theorem.",
+        "level_note": "noon and midnight are also proved total over the whole calendar (C20).",
         "lean_modules": ["Astral.Props.C05", "Astral.Props.C05Real", "Astral.Props.EoT",
-                         "Astral.Props.C05Noon"],
+                         "Astral.Props.EoTStep", "Astral.Props.C05Noon"],
         "theorems": [
             "Astral.C05.carrySM_spec", "Astral.C05.carrySM_minute_range", "Astral.C05.mkNoon_spec",
             "Astral.C05.mkMidnight_spec", "Astral.C05.noon_on_date", "Astral.C05.noon_on_date_of_aligned",
@@ -287,12 +288,14 @@ PROPS = {
             "Astral.C05Real.noon_is_highest", "Astral.EoT.eqOfTime_bound",
             "Astral.C05Noon.splitHours_spec", "Astral.C05Noon.noonUtc_value",
             "Astral.C05Noon.noon_on_requested_date", "Astral.C05Noon.midnightUtc_value",
-            "Astral.C05Noon.midnight_near_zone_midnight", "Astral.C05Noon.noon_total",
+            "Astral.C05Noon.midnight_near_zone_midnight", "Astral.EoTStep.eqOfTime_step",
+            "Astral.C05Noon.midnight_spacing", "Astral.C05Noon.midnight_nearest_tight",
+            "Astral.C05Noon.noon_total",
             "Astral.C05Noon.midnight_total",
         ],
         "groups": [G("corr_sun", "sun_events", 4500, 100000), G("corr_sun", "sun_chain", 1400, 30000)],
         "unproved": ["hour angle within 0.25° of 0 / 180 by an independent ephemeris",
-                     "consecutive solar midnights 24 h ± 30 s apart (proved: ± 37 min 26 s)"],
+                     ],
         "assumes": [],
     },
     "C08": {
